@@ -243,6 +243,42 @@ async def _sc_client(case: dict, inj: _Inject) -> dict:
             await asyncio.gather(sender, return_exceptions=True)
 
 
+async def _sc_client_unused_socket(case: dict, inj: _Inject) -> dict:
+    """A client built from an already connected socket.socket owns it ("You must close the client to close the socket"):
+    aclose() before the client was ever connected (no wait_connected(), no I/O) must still close that socket."""
+    import socket as _socket
+
+    from easynetwork.clients.async_udp import AsyncUDPNetworkClient
+    from easynetwork.protocol import DatagramProtocol
+
+    backend = AsyncIOBackend()
+    udp = case["proto"] == "udp"
+    peer = None
+    if udp:
+        sock = _socket.socket(_socket.AF_INET, _socket.SOCK_DGRAM)
+        sock.bind(("127.0.0.1", 0))
+        sock.connect(("127.0.0.1", 9))
+        client: Any = AsyncUDPNetworkClient(sock, DatagramProtocol(StringLineSerializer()), backend)
+    else:
+        lst = _socket.socket(_socket.AF_INET, _socket.SOCK_STREAM)
+        lst.bind(("127.0.0.1", 0))
+        lst.listen(1)
+        sock = _socket.socket(_socket.AF_INET, _socket.SOCK_STREAM)
+        sock.connect(lst.getsockname())
+        peer, _ = lst.accept()
+        lst.close()
+        client = AsyncTCPNetworkClient(sock, StreamProtocol(StringLineSerializer()), backend)
+    try:
+        end = await _run_close(backend, client.aclose, inj)
+        facts: dict[str, Any] = {"underlying": [("socket-given-to-the-client", sock.fileno() == -1)], "outer_closing": client.is_closing()}
+        facts["second"] = await _second_close(client)
+        return {"end": end, "facts": facts}
+    finally:
+        sock.close()
+        if peer is not None:
+            peer.close()
+
+
 async def _sc_listener(case: dict, inj: _Inject) -> dict:
     """ListenerSocketAdapter.aclose() on a real listening socket (loopback), with or without a serve() task parked in accept"""
     import socket as _socket
@@ -510,6 +546,7 @@ SCENARIOS = {
     "client": _sc_client,
     "udp-client": _sc_udp_client,
     "listener": _sc_listener,
+    "client-unused-socket": _sc_client_unused_socket,
 }
 
 
@@ -627,7 +664,7 @@ def st_mem_script() -> st.SearchStrategy[dict]:
 def st_case(draw: st.DrawFn, tier: str) -> dict:
     path = draw(
         st.sampled_from(
-            ["tls-aclose", "tls-aclose", "tls-wrap", "stapled-stream", "stapled-datagram", "endpoint", "client", "client", "udp-client", "listener", "client-connecting", "adapter", "adapter", "server-client", "server-client"]
+            ["tls-aclose", "tls-aclose", "tls-wrap", "stapled-stream", "stapled-datagram", "endpoint", "client", "client", "udp-client", "listener", "client-unused-socket", "client-connecting", "adapter", "adapter", "server-client", "server-client"]
         )
     )
     if path == "tls-aclose":
@@ -688,6 +725,8 @@ def st_case(draw: st.DrawFn, tier: str) -> dict:
         # no scripted aclose() error here: an exception from transport.aclose() during the client task's teardown escapes
         # into the server's task group (observation recorded in DESIGN 7.4; outside the statement of C14)
         return {"path": path, "contention": draw(st.booleans()), "mem_script": {"aclose_yields": draw(st.integers(0, 4)), "aclose_error": None}}
+    if path == "client-unused-socket":
+        return {"path": path, "proto": draw(st.sampled_from(["tcp", "udp"]))}
     if path == "listener":
         return {"path": path, "accept_pending": draw(st.sampled_from([True, True, False])), "serve_ticks": draw(st.integers(1, 4))}
     contention = draw(st.booleans())
